@@ -503,3 +503,113 @@ def c16_5(I, shape):
         I.fail("pha-requested-without-client-support")
     except ValueError:
         pass
+
+
+# ---------------------------------------------------------------------------
+# C16.6  heartbeat is answered exactly when both sides enabled it (live pair)
+# ---------------------------------------------------------------------------
+from models import pair as P
+from obl.C05 import PAIR_RND5, _pair_patches5
+from tlslite.messages import Heartbeat
+from tlslite.constants import HeartbeatMessageType
+from tlslite.errors import BaseTLSException
+from symx.core import PathAbort, Unsupported
+
+
+def _shapes_c16_6(tier):
+    out = []
+    for ver in ("tls13", "tls12", "tls10"):
+        for hb in ("both", "server-declines", "client-declines"):
+            for sender in ("client", "server"):
+                out.append(dict(ver=ver, heartbeat=hb, sender=sender))
+    return out
+
+
+@obligation("C16.6", _shapes_c16_6,
+            functions=["tlslite.tlsconnection:TLSConnection."
+                       "_serverGetClientHello",
+                       "tlslite.tlsconnection:TLSConnection."
+                       "_clientGetServerHello",
+                       "tlslite.tlsconnection:TLSConnection."
+                       "_clientTLS13Handshake",
+                       "tlslite.tlsconnection:TLSConnection."
+                       "_serverTLS13Handshake",
+                       "tlslite.tlsrecordlayer:TLSRecordLayer._getMsg",
+                       "tlslite.messages:Heartbeat.parse"],
+            assumes=P.PAIR_ASSUMES + [
+                "two live endpoints, TLS 1.3 / 1.2 / 1.0; "
+                "use_heartbeat_extension per side and shape; after the "
+                "handshake one side sends a HeartbeatRequest with a symbolic "
+                "5-byte payload and 16 bytes of padding"],
+            patches=_pair_patches5, max_paths=200, timeout=(600, 1800),
+            also=("C03",))
+def c16_6(I, shape):
+    """heartbeat is in use exactly when both sides enabled it: then a request
+    is answered with its payload; otherwise the receiver of a request aborts
+    with unexpected_message and both sides hold 'not supported'"""
+    ver, hb = shape["ver"], shape["heartbeat"]
+    if ver == "tls13":
+        cset, sset = P.settings13(), P.settings13()
+    elif ver == "tls12":
+        cset, sset = P.settings12(), P.settings12()
+    else:
+        cset = P.settings12((3, 1), "ecdhe_rsa", "aes128", "sha")
+        sset = P.settings12((3, 1), "ecdhe_rsa", "aes128", "sha")
+    cset.use_heartbeat_extension = hb != "client-declines"
+    sset.use_heartbeat_extension = hb != "server-declines"
+    sc = P.Scenario(I, PAIR_RND5, cset, sset, server_cred="rsa")
+    sc.run()
+    I.check(sc.both_completed(), "handshake-completes",
+            detail=lambda: dict(c=repr(sc.cep.error), s=repr(sc.sep.error),
+                                crash=sc.cep.crash or sc.sep.crash))
+    if not sc.both_completed():
+        return
+    c, s = sc.c, sc.s
+    want = hb == "both"
+    I.check(c.heartbeat_supported == want and s.heartbeat_supported == want,
+            "heartbeat-supported-iff-both-sides-enabled-it",
+            detail=lambda: dict(c=c.heartbeat_supported,
+                                s=s.heartbeat_supported))
+    snd, rcv = (c, s) if shape["sender"] == "client" else (s, c)
+    payload = I.bytes(5, "payload")
+    req = Heartbeat().create(HeartbeatMessageType.heartbeat_request,
+                             newbuf(list(payload)), 16)
+    nbefore = len(sc.wire.log)
+    for r in snd._sendMsg(req):
+        pass
+    err = None
+    try:
+        for r in rcv.readAsync(max=1, min=0):
+            if r in (0, 1) and isinstance(r, int):
+                break
+    except BaseTLSException as e:
+        err = e
+    except (PathAbort, Unsupported):
+        raise
+    except Exception as e:
+        I.fail("heartbeat processing raised %s" % type(e).__name__,
+               detail=repr(e)[:200])
+        return
+    sent = [d for who, d in sc.wire.log[nbefore + 1:]]
+    if want:
+        I.check(err is None, "negotiated-heartbeat-request-is-accepted",
+                detail=lambda: dict(err=repr(err)))
+        # the answer is on the wire: read it on the sender's side as a record
+        got = None
+        for got in snd._recordLayer.recvRecord():
+            if got not in (0, 1):
+                break
+        hdr, parser = got
+        I.check(hdr.type == ContentType.heartbeat,
+                "a-heartbeat-record-comes-back")
+        body = list(parser.bytes)
+        I.check(len(body) >= 8 and
+                bool(body[0] == HeartbeatMessageType.heartbeat_response) and
+                bool(seq_eq(body[3:8], list(payload))),
+                "response-echoes-the-request-payload")
+    else:
+        I.check(isinstance(err, TLSLocalAlert) and
+                err.description == AlertDescription.unexpected_message,
+                "heartbeat-that-was-not-negotiated-is-unexpected_message",
+                detail=lambda: dict(err=repr(err)))
+        I.check(rcv.closed, "connection-closed")
